@@ -180,6 +180,9 @@ var runConnCalls int
 // five of them ahead of the parser
 var runConnNoSniff bool
 
+// runConnPreBuf / runConnWarmupMax: see runConn (set by C20 for some configurations)
+var runConnPreBuf, runConnWarmupMax int
+
 // runConn drives a Connection (single attempt, no retries) over the reader.
 func runConn(rd io.Reader, buf []byte, maxSize int) (obs readObs) {
 	defer func() {
@@ -217,12 +220,39 @@ func runConn(rd io.Reader, buf []byte, maxSize int) (obs readObs) {
 	}
 	req, _ := http.NewRequestWithContext(context.Background(), http.MethodGet, "http://verif.invalid/stream", http.NoBody)
 	conn := cl.NewConnection(req)
+	armed := true
+	if runConnPreBuf > 0 {
+		// the buffer is configured twice; the second call is the one that counts
+		conn.Buffer(make([]byte, 0, runConnPreBuf), runConnPreBuf)
+	}
+	if runConnWarmupMax > 0 {
+		// an earlier Connect on the same Connection, with a larger limit, before the limit is lowered
+		armed = false
+		first := true
+		inner := rt.bodies
+		rt.bodies = func(a int, r *http.Request) (io.Reader, error) {
+			if first {
+				first = false
+				return strings.NewReader("data: warm-up " + strings.Repeat("w", 3000) + "\n\n"), nil
+			}
+			return inner(a, r)
+		}
+		conn.Buffer(nil, runConnWarmupMax)
+		conn.Connect()
+		armed = true
+		if buf == nil && maxSize == 0 {
+			maxSize = 64 * 1024 // back to the default, said explicitly
+		}
+	}
 	if buf != nil || maxSize > 0 {
 		conn.Buffer(buf, maxSize)
 	}
 	returned := false
 	var raw []obsEvent
 	conn.SubscribeToAll(func(e sse.Event) {
+		if !armed {
+			return
+		}
 		if returned {
 			obs.Proto = append(obs.Proto, "callback after Connect returned")
 		}
